@@ -210,7 +210,12 @@ func (fr *Frame) unary(st *State, n *ast.UnaryExpr) Val {
 		if ct == nil {
 			return fr.unsupported(st, n, "recv", fr.typeOf(n))
 		}
-		return x.havocVal("recv", ct.Elem())
+		rv := x.havocVal("recv", ct.Elem())
+		if _, isPtr := ct.Elem().Underlying().(*types.Pointer); isPtr {
+			// messages on channels are assumed to be non-nil (listed assumption)
+			x.u.gfact(st.pc, "(and (> "+rv.T+" 0) (< "+rv.T+" "+st.next+"))")
+		}
+		return rv
 	}
 	return fr.unsupported(st, n, "unary "+n.Op.String(), fr.typeOf(n))
 }
